@@ -278,6 +278,9 @@ func runC30LeastConnections(r *Run) {
 	routes := []liteconfig.Route{{Host: []string{"*"}, Backend: backends, Strategy: liteconfig.StrategyLeastConnections}}
 	w := newLite(r, routes, nil)
 	defer w.finish()
+	// releases are scheduling points here as well: the counters are atomics updated next to,
+	// not only inside, the strategy manager's critical sections
+	w.s.YieldAfterUnlock = true
 	openBy := map[string]int{}
 	for _, b := range backends {
 		b := b
